@@ -348,7 +348,7 @@ def unsupplied_default_nodes(prog, fi, private_only=True):
     return {name: d for name, d in defaults.items() if name not in supplied}
 
 
-def flatten_helpers(prog, fi, depth=2, awaited=False):
+def flatten_helpers(prog, fi, depth=2, awaited=False, sync=True):
     """a copy of fi's definition in which call STATEMENTS to own helpers -- `self._h(a, b)`, `cls._h(...)`,
     `Class._h(...)`, a private module-level `_h(...)` of the same module -- are replaced by the helper's body with its
     parameters renamed to the argument expressions.  Only helpers that return nothing, never re-bind a parameter, whose
@@ -387,9 +387,11 @@ def flatten_helpers(prog, fi, depth=2, awaited=False):
                 sub = getattr(st, fld, None)
                 if isinstance(sub, list) and sub and isinstance(sub[0], ast.stmt) and not isinstance(st, (ast.FunctionDef, ast.AsyncFunctionDef, ast.ClassDef)):
                     setattr(st, fld, expand(sub, level, caller_names))
+            for h in getattr(st, "handlers", None) or []:
+                h.body = expand(h.body, level, caller_names)
             g = None
             call = None
-            if isinstance(st, ast.Expr) and isinstance(st.value, ast.Call) and level < depth:
+            if sync and isinstance(st, ast.Expr) and isinstance(st.value, ast.Call) and level < depth:
                 call = st.value
                 g = helper_of(call)
                 if g is not None and g.is_async:
@@ -610,3 +612,24 @@ def optional_collaborator_field(prog, cls, attr):
             return False
     cache[key] = True
     return True
+
+
+def flat(prog, fi, awaited=True, depth=2, sync=False):
+    """fi with the private helpers it calls / awaits as statements expanded in place (a FuncInfo; fi itself when there is
+    nothing to expand).  For shape rules: extracting a block into a private (co)routine does not change what runs."""
+    if fi is None:
+        return None
+    memo = prog.__dict__.setdefault("_flat_memo", {})
+    key = (fi.qual, awaited, depth, sync)
+    if key not in memo:
+        node = flatten_helpers(prog, fi, depth=depth, awaited=awaited, sync=sync)
+        if ast.dump(node) != ast.dump(fi.node):
+            from .index import FuncInfo
+
+            for x in ast.walk(node):
+                if not hasattr(x, "_file"):
+                    x._file = getattr(fi.node, "_file", None)
+            memo[key] = FuncInfo(fi.qual, node, fi.module, fi.cls)
+        else:
+            memo[key] = fi
+    return memo[key]
